@@ -68,7 +68,7 @@ func (c Case) wire() map[string]any {
 	case "prim":
 		return map[string]any{"kind": c.Kind, "id": c.Id, "prim": c.Prim, "rows": c.Rows, "cols": c.Cols,
 			"sides": c.Sides, "d": c.D, "uv": c.UV, "chain": c.Chain, "scale": c.Scale,
-			"hist": c.Hist, "ord": c.Ord, "conc": c.Conc}
+			"hist": c.Hist, "ord": c.Ord, "conc": c.Conc, "mag": c.Mag}
 	}
 	panic("no wire format for " + c.Kind)
 }
@@ -332,6 +332,14 @@ func randomPrimCase(rng *rand.Rand, id, maxCount int) Case {
 		ext = maxInt(c.D[0], (c.D[1]+1)/2)
 	}
 	c.Scale = PrimScale(ext)
+	// magnitude: one tuple in three is built at another order of magnitude (2^e, 10^e)
+	c.Mag = []int{2, 0}
+	switch rng.Intn(6) {
+	case 0:
+		c.Mag = []int{2, rng.Intn(61) - 40}
+	case 1:
+		c.Mag = []int{10, rng.Intn(16) - 12}
+	}
 	// seeded tuples are constructed in histories of ten (history.go)
 	c.Hist = 100000 + id/10
 	c.Ord = id % 10
